@@ -37,7 +37,7 @@ Definition not_stored (a : nat) (v : cview) : Prop :=
 
 (** vacating slot [k] of [o] (SlotMap::remove, or the SlotMap's drop reaching the slot) *)
 Definition vacated (o k : nat) (w : vobj) (v v1 : cview) : Prop :=
-  RelW v v1 /\ K1x o k v v1 /\
+  RelW v v1 /\ K1x o k v v1 /\ cv_n v1 = cv_n v /\
   (forall a s, slotv (cv_h v1) o k <> Some (MAction a s)) /\
   (forall a s, v_slots w !! k = Some (MAction a s) ->
                not_stored a v1 /\ a ∉ cv_x v1 /\ a < cv_n v1).
@@ -52,7 +52,7 @@ Lemma vacate_all g v o k w :
 Proof.
   unfold vacated. destruct v as [h n x]. cbn [cv_h cv_n cv_x]. intros HI Hw Hi Hsl Hcl Hfr.
   destruct (RelW_vacate_gen g h n x o k w HI Hw Hi Hsl Hcl Hfr) as (HW & HK & Hn).
-  split; [exact HW|]. split; [exact HK|]. split; [exact Hn|].
+  split; [exact HW|]. split; [exact HK|]. split; [reflexivity|]. split; [exact Hn|].
   intros a s Ha. assert (Hst : slotv h o k = Some (MAction a s)) by (rewrite (slotv_eq _ _ _ _ Hw); exact Ha).
   split; [|split].
   - intros o' k' s' H'. destruct HW as (_ & _ & HK2). destruct (HK2 o' k' a s' H') as [H0|Hge].
